@@ -860,6 +860,18 @@ func (schema *Schema) PermitsNull() bool {
 
 // IsEmpty tells whether schema is equivalent to the empty schema `{}`.
 func (schema *Schema) IsEmpty() bool {
+	return schema.isEmpty(nil)
+}
+
+// isEmpty is IsEmpty with the schemas already entered through oneOf, anyOf and allOf: a schema met
+// again adds no constraint of its own.
+func (schema *Schema) isEmpty(entered []*Schema) bool {
+	for _, s := range entered {
+		if s == schema {
+			return true
+		}
+	}
+	entered = append(entered, schema)
 	if schema.Type != nil || schema.Format != "" || len(schema.Enum) != 0 ||
 		schema.UniqueItems || schema.ExclusiveMin || schema.ExclusiveMax ||
 		schema.Nullable || schema.ReadOnly || schema.WriteOnly || schema.AllowEmptyValue ||
@@ -887,17 +899,17 @@ func (schema *Schema) IsEmpty() bool {
 		return false
 	}
 	for _, s := range schema.OneOf {
-		if ss := s.Value; ss != nil && !ss.IsEmpty() {
+		if ss := s.Value; ss != nil && !ss.isEmpty(entered) {
 			return false
 		}
 	}
 	for _, s := range schema.AnyOf {
-		if ss := s.Value; ss != nil && !ss.IsEmpty() {
+		if ss := s.Value; ss != nil && !ss.isEmpty(entered) {
 			return false
 		}
 	}
 	for _, s := range schema.AllOf {
-		if ss := s.Value; ss != nil && !ss.IsEmpty() {
+		if ss := s.Value; ss != nil && !ss.isEmpty(entered) {
 			return false
 		}
 	}
